@@ -1430,6 +1430,54 @@ mod c08 {
                 push(format!("{name}/rebuilt-footer"), assemble(&f, seed.footer_kind, None), extra.clone());
             }
         }
+        // (d2) forgeries under a LAX READING of a stored chunk whose two length fields disagree: hashes, boundaries,
+        //      unpacked offsets and the xorb hash are rebuilt exactly as a decoder would see them that (1) takes the
+        //      payload length from the uncompressed field, or (2) steps by the compressed field but reads the
+        //      uncompressed count.  A correct decoder rejects a stored chunk with unequal lengths, so none may be accepted.
+        if seed.footer_kind == FOOT_V1 && n >= 2 {
+            for i in 0..n - 1 {
+                let fr = &seed.frames[i];
+                if fr.raw.len() != rm::FRAME_HEADER_LEN + fr.data.len() || fr.raw[4] != 0 {
+                    continue; // not a stored chunk
+                }
+                let len = fr.data.len() as i64;
+                for delta in [-8i64, -1, 1, 8] {
+                    let l2 = len + delta;
+                    if l2 < 1 {
+                        continue;
+                    }
+                    for variant in 0..2u8 {
+                        // raw frames with the forged header of chunk i
+                        let mut raws: Vec<Vec<u8>> = seed.frames.iter().map(|f| f.raw.clone()).collect();
+                        let mut hdr = fr.raw[..rm::FRAME_HEADER_LEN].to_vec();
+                        if variant == 0 {
+                            set_le(&mut hdr, 5, 3, l2 as u64); // uncompressed := l2, compressed stays
+                            raws[i][..rm::FRAME_HEADER_LEN].copy_from_slice(&hdr);
+                        } else {
+                            set_le(&mut hdr, 1, 3, l2 as u64); // compressed := l2 (the stride), uncompressed stays
+                            let mut r = hdr.clone();
+                            if l2 >= len {
+                                r.extend_from_slice(&fr.data);
+                                r.extend(std::iter::repeat(0xEE).take((l2 - len) as usize));
+                            } else {
+                                r.extend_from_slice(&fr.data[..l2 as usize]);
+                            }
+                            raws[i] = r;
+                        }
+                        let buffer: Vec<u8> = raws.iter().flat_map(|r| r.iter().copied()).collect();
+                        let start: usize = raws[..i].iter().map(|r| r.len()).sum::<usize>() + rm::FRAME_HEADER_LEN;
+                        let read = if variant == 0 { l2 as usize } else { len as usize };
+                        if start + read > buffer.len() {
+                            continue;
+                        }
+                        let mut f: Vec<Frame> = seed.frames.iter().zip(&raws).map(|(f, r)| Frame { raw: r.clone(), data: f.data.clone() }).collect();
+                        f[i].data = buffer[start..start + read].to_vec();
+                        let h = rm::xorb_hash(&list_of(&f));
+                        push(format!("forge-stored-length{i}:{}{delta:+}/footer-for-the-lax-reading", if variant == 0 { "uncompressed" } else { "compressed" }), assemble(&f, FOOT_V1, None), vec![h]);
+                    }
+                }
+            }
+        }
         // footer kind conversions
         push("footer->v0-marker-only".into(), [&b[..seed.frames_end], &b"XETBLOB\0"[..]].concat(), vec![]);
         push("footer->v1-marker-only".into(), [&b[..seed.frames_end], &b"XETBLOB\x01"[..]].concat(), vec![]);
@@ -2035,7 +2083,7 @@ mod c08 {
             // the quick-tier mutation set without the chunk-level edits, in both tiers
             let si = si as usize;
             for m in mutations(si, seeds, Tier::Quick) {
-                if ["drop-chunk", "duplicate-chunk", "swap-chunks", "replace-chunk", "insert-at", "extend"].iter().any(|p| m.desc.starts_with(p)) {
+                if ["drop-chunk", "duplicate-chunk", "swap-chunks", "replace-chunk", "insert-at", "extend", "forge-"].iter().any(|p| m.desc.starts_with(p)) {
                     continue;
                 }
                 v.push((seeds[si].name.clone(), m.desc, m.bytes, m.extra_hashes, Some(si)));
@@ -2269,7 +2317,7 @@ mod c08 {
         run.all = all;
         run.finish(
             evaluations,
-            "for every seed xorb (1-3 chunks x 4 compression requests x {v1 footer, v0 footer, no footer}): the seed itself; every byte of the frame headers, LZ4 frame headers and footer (thorough: every byte of the object) XOR 0x01/0x80/0xff and set to 0x00/0xff (thorough: every single-bit flip in those regions); truncation at every offset; extension by 1-9 bytes; every chunk drop/duplicate/swap, replacement by and insertion of every chunk of every other seed (stale footer, rebuilt footer claiming the old hash, rebuilt footer); footer splices; every count/length/offset field set to 0, n-1, n+1, n-8, n+8, 2^16, 2^31 (2^23), max; plus every byte string up to the tier's length over all bytes and over {00,01,'X',7f,ff}. Thorough additionally sets every structural byte (frame headers, LZ4 frame descriptors, footer bytes other than hashes) to every value. An auxiliary family feeds the footer-level mutations of the v1 seeds to CasObjectInfoV1::deserialize_only_boundaries_section (own signatures). Each input goes to CasObject::deserialize and, for each candidate hash (seed hash, one-bit-flipped, zero, donor/edited-list hash, hash recomputed from the bytes, footer hash field), to both validators. Evaluations = inputs + auxiliary inputs. Distinct = distinct byte strings given to the validators; non-trivial = non-empty and not a no-op mutation",
+            "for every seed xorb (1-3 chunks x 4 compression requests x {v1 footer, v0 footer, no footer}): the seed itself; every byte of the frame headers, LZ4 frame headers and footer (thorough: every byte of the object) XOR 0x01/0x80/0xff and set to 0x00/0xff (thorough: every single-bit flip in those regions); truncation at every offset; extension by 1-9 bytes; every chunk drop/duplicate/swap, replacement by and insertion of every chunk of every other seed (stale footer, rebuilt footer claiming the old hash, rebuilt footer); footer splices; for stored chunks, forgeries whose hashes and footer are rebuilt for a decoder that trusts the wrong one of two disagreeing length fields; every count/length/offset field set to 0, n-1, n+1, n-8, n+8, 2^16, 2^31 (2^23), max; plus every byte string up to the tier's length over all bytes and over {00,01,'X',7f,ff}. Thorough additionally sets every structural byte (frame headers, LZ4 frame descriptors, footer bytes other than hashes) to every value. An auxiliary family feeds the footer-level mutations of the v1 seeds to CasObjectInfoV1::deserialize_only_boundaries_section (own signatures). Each input goes to CasObject::deserialize and, for each candidate hash (seed hash, one-bit-flipped, zero, donor/edited-list hash, hash recomputed from the bytes, footer hash field), to both validators. Evaluations = inputs + auxiliary inputs. Distinct = distinct byte strings given to the validators; non-trivial = non-empty and not a no-op mutation",
         true,
         );
     }
